@@ -1,3 +1,172 @@
-(* C07 -- simplify never changes what a program returns: statements (being filled in). *)
+(* C07 -- simplify never changes what a program returns.
+
+   "Constant folding, copy propagation and dead-code elimination, alone, in any
+   order or iterated to a fixed point as `simplify`, produce a program that
+   returns the same value as the original on every input on which the original
+   returns.  They never make a returning program raise."
+
+   Every statement below has the form
+       run N P fuel f args c = ROk v ->
+       exists fuel' v', run N P' fuel' f' args c = ROk v' /\ cval_eqb v v' = true
+   for EVERY program P of the modelled core (coq/Lang/Syntax.v), every function
+   f of it, every argument list, every caller context c and every number
+   instance N (`numops`: the theorems do not depend on arithmetic).  P' is
+   `add_fn P f' fn'`: simplify(func) returns a new function object, so the
+   rewritten function fn' is added under a fresh name f' while the callees and
+   the original keep their ASTs, as in fpy2.
+
+   The passes AS CODED violate the property (the ..._refuted theorems: witnesses
+   evaluated by vm_compute on the faithful models); what is proved sound is
+     - the two translation VALIDATORS (expression rewriting under available
+       equalities and checked constant claims: CopyPropagate and ConstFold
+       results; liveness-based removal: DeadCodeEliminate results), for any
+       (input, output) pair they accept, however the output was produced, and
+     - the repaired passes re-checked by them (`copyprop_checked`,
+       `dce_checked`), and any iteration of checked steps (`simp_iter`).
+   Coverage of the dead-code validator: every statement form; a DROPPED
+   statement must be built from pure expressions without FPy calls and without
+   allocating forms (list displays, comprehensions, slices, ranges, zip,
+   enumerate, empty) -- removing an allocation changes the addresses of later
+   lists, which the simulation (identical stores) does not follow; such steps are
+   covered by differential execution only. *)
 From Coq Require Import ZArith List Bool String.
-From FpyV Require Import Lang.Syntax Lang.Values Lang.Sem Lang.Transforms.SimpDefs Lang.Transforms.SimpRw Lang.Transforms.SimpDce.
+From FpyV Require Import Num.RealFloat Num.Float Num.CtxDef Lang.Syntax Lang.Values Lang.Sem Lang.NumInst.
+From FpyV Require Import Lang.Transforms.SimpDefs Lang.Transforms.SimpRw Lang.Transforms.SimpDce Lang.Transforms.Simplify
+  Lang.Transforms.SimpRunProofs Lang.Transforms.SimpRwProofs Lang.Transforms.SimpDceProofs
+  Lang.Transforms.SimpLitProofs Lang.Transforms.SimpRefuteProofs Lang.Transforms.SimplifyProofs.
+Import ListNotations.
+Open Scope string_scope.
+
+(* ---------------------------------------------------------------- copy propagation *)
+(* full strength ("the pass as coded preserves run") is REFUTED: *)
+Theorem C07_copyprop_as_coded_refuted :
+  exists P f fn args v v',
+    lookup_fn P f = Some fn /\
+    run prov_numops P 100 f args None = ROk v /\
+    run prov_numops (add_fn P "f'" (with_body fn (copyprop_as_coded fn))) 100 "f'" args None = ROk v' /\
+    cval_eqb v v' = false.
+Proof.
+  exists [("f", wA)], "f". destruct copyprop_as_coded_refuted as (fn & v & v' & H).
+  exists fn, [znum 1; znum 2], v, v'. exact H.
+Qed.
+Print Assumptions C07_copyprop_as_coded_refuted.
+
+(* the second defect of the analysis the pass relies on: the target of a `for` *)
+Theorem C07_copyprop_for_target_refuted :
+  changes [("f", wF)] "f" copyprop_as_coded [znum 1; CList [znum 10; znum 20]].
+Proof. exact copyprop_for_target_refuted. Qed.
+Print Assumptions C07_copyprop_for_target_refuted.
+
+(* the guarded version: the equality x = y is used only where neither x nor y
+   has been redefined since the copy (straight-line code, branches, loops,
+   with-blocks, comprehension targets); the result is re-checked by the
+   validator below *)
+Theorem C07_copyprop_sound_partial : forall (N : numops) (P : program) (d : nat) (f f' : ident) (fn : func),
+  lookup_fn P f = Some fn -> lookup_fn P f' = None ->
+  forall fuel args c v, run N P fuel f args c = ROk v ->
+    exists fuel' v', run N (add_fn P f' (with_body fn (copyprop_checked d fn))) fuel' f' args c = ROk v' /\
+                     cval_eqb v v' = true.
+Proof. exact copyprop_sound_partial. Qed.
+Print Assumptions C07_copyprop_sound_partial.
+
+(* ---------------------------------------------------------------- constant folding / expression rewriting *)
+(* replacing expressions by the literal of the value they are known to evaluate
+   to -- `claim_valid`: under the literal facts in force and the statically
+   known context the expression evaluates to the value of the literal, leaving
+   the store alone -- and variables by available copies preserves run.  PARTIAL:
+   the literal must evaluate to the VERY value (same encoding of the number);
+   bridging to "the same number in another encoding" needs the encoding
+   independence of the number operations (C05) for the whole evaluator. *)
+Theorem C07_subst_sound_facts_partial :
+  forall (N : numops) (P : program) (K : nat) (claim_ok : claim -> bool) (guess : facts -> expr -> option ctx)
+         (d : nat) (f f' : ident) (fn fn' : func),
+  (1 <= K)%nat ->
+  (forall cl, claim_ok cl = true -> claim_valid N P cl) ->
+  vrw_func K claim_ok guess d fn fn' = true ->
+  lookup_fn P f = Some fn -> lookup_fn P f' = None ->
+  forall fuel args c v, run N P fuel f args c = ROk v ->
+    exists fuel' v', run N (add_fn P f' fn') fuel' f' args c = ROk v' /\ cval_eqb v v' = true.
+Proof. exact vrw_func_sound. Qed.
+Print Assumptions C07_subst_sound_facts_partial.
+
+(* value_to_literal: a well-formed list-free value is denoted by its literal
+   (sign of zero included); infinities and NaN are refused *)
+Theorem C07_literal_of_value_roundtrip : forall w e, cval_okb w = true -> literal_of_value w = Some e ->
+  is_lit e = true /\
+  exists v, lit_val e = Some v /\
+    forall k mu, (cval_depth w <= k)%nat -> exists w', extract k mu v = Some w' /\ cval_eqb w w' = true.
+Proof. exact literal_of_value_roundtrip. Qed.
+Print Assumptions C07_literal_of_value_roundtrip.
+
+Theorem C07_literal_evaluates : forall (N : numops) (P : program) n l v s mu C,
+  lit_val l = Some v -> (lit_depth l <= n)%nat -> eval N P n s mu C l = ROk (v, mu).
+Proof. intros N P. exact (lit_eval N P 1 (le_n 1)). Qed.
+Print Assumptions C07_literal_evaluates.
+
+Theorem C07_literal_refuses_inf_nan : forall s,
+  literal_of_value (CNum (NF (FInf s))) = None /\ literal_of_value (CNum (NF (FNaN s))) = None.
+Proof. exact literal_of_value_inf_nan. Qed.
+Print Assumptions C07_literal_refuses_inf_nan.
+
+Theorem C07_literal_negative_zero : forall e,
+  literal_of_value (CNum (NF (FFin (RF true e 0)))) = Some (ENum (FFin (RF true 0 0))).
+Proof. exact literal_of_value_negzero. Qed.
+Print Assumptions C07_literal_negative_zero.
+
+(* for LIST values the literal is unsound (a fresh list replaces an alias) *)
+Theorem C07_constfold_list_refuted : changes [("f", wD)] "f" fold_xs [znum 1].
+Proof. exact constfold_list_refuted. Qed.
+Print Assumptions C07_constfold_list_refuted.
+
+(* ---------------------------------------------------------------- dead-code elimination *)
+Theorem C07_dce_as_coded_refuted :
+  changes [("g2", g2); ("f", wB)] "f" (dce_as_coded [("g2", g2); ("f", wB)]) [CList [znum 5; znum 6]; znum 1].
+Proof. exact dce_as_coded_refuted. Qed.
+Print Assumptions C07_dce_as_coded_refuted.
+
+Theorem C07_dce_purity_as_coded_refuted :
+  changes [("g", galias); ("f", wC)] "f" (dce_as_coded [("g", galias); ("f", wC)]) [CList [znum 5; znum 6]].
+Proof. exact dce_purity_as_coded_refuted. Qed.
+Print Assumptions C07_dce_purity_as_coded_refuted.
+
+Theorem C07_validate_dce_sound : forall (N : numops) (P : program) (d : nat) (f f' : ident) (fn fn' : func),
+  validate_dce d fn fn' = true -> lookup_fn P f = Some fn -> lookup_fn P f' = None ->
+  forall fuel args c v, run N P fuel f args c = ROk v ->
+    exists fuel' v', run N (add_fn P f' fn') fuel' f' args c = ROk v' /\ cval_eqb v v' = true.
+Proof. exact validate_dce_sound. Qed.
+Print Assumptions C07_validate_dce_sound.
+
+Theorem C07_dce_sound : forall (N : numops) (P : program) (d : nat) (f f' : ident) (fn : func),
+  lookup_fn P f = Some fn -> lookup_fn P f' = None ->
+  forall fuel args c v, run N P fuel f args c = ROk v ->
+    exists fuel' v', run N (add_fn P f' (with_body fn (dce_checked d P fn))) fuel' f' args c = ROk v' /\
+                     cval_eqb v v' = true.
+Proof. exact dce_sound. Qed.
+Print Assumptions C07_dce_sound.
+
+(* ---------------------------------------------------------------- simplify *)
+(* any sequence of checked steps: every subset of the enable_* switches, every
+   order, any number of rounds *)
+Theorem C07_simplify_iter :
+  forall (N : numops) (P : program) (K : nat) (claim_ok : claim -> bool) (guess : facts -> expr -> option ctx) (d : nat),
+  (1 <= K)%nat -> (forall cl, claim_ok cl = true -> claim_valid N P cl) ->
+  forall (cs : list cand) (f f' : ident) (fn : func),
+  lookup_fn P f = Some fn -> lookup_fn P f' = None ->
+  forall fuel args c v, run N P fuel f args c = ROk v ->
+    exists fuel' v', run N (add_fn P f' (simp_iter K claim_ok guess d P cs fn)) fuel' f' args c = ROk v' /\
+                     cval_eqb v v' = true.
+Proof. exact simplify_iter. Qed.
+Print Assumptions C07_simplify_iter.
+
+(* "They never make a returning program raise." *)
+Theorem C07_never_new_error : forall (N : numops) (P : program) (f : ident) (P' : program) (f' : ident),
+  preserves N P f P' f' ->
+  forall fuel args c v, run N P fuel f args c = ROk v ->
+  forall fuel' e, run N P' fuel' f' args c <> RErr e.
+Proof. exact never_new_error. Qed.
+Print Assumptions C07_never_new_error.
+
+(* the hypotheses are satisfiable / the checked passes are not the identity *)
+Theorem C07_copyprop_checked_nontrivial : copyprop_checked 50 wA = copyprop_fixed wA /\ copyprop_fixed wA <> f_body wA.
+Proof. split; [exact copyprop_checked_nontrivial | vm_compute; discriminate]. Qed.
+Print Assumptions C07_copyprop_checked_nontrivial.
